@@ -61,6 +61,8 @@ factors = st.one_of(st.sampled_from([0.0, 1.0, -1.0, -0.0, 2.0, -0.5, 1e3, -1e3,
 def prim_cases(draw, tier):
     return dict(which=draw(st.sampled_from(["scale_fwd", "scale_bwd"])), factor=draw(factors),
                 dtype=draw(st.sampled_from(["float64", "float32", "bfloat16", "float16"])),
+                # the same factor is first used on tensors of these other dtypes (state carried over between calls must not matter)
+                before=draw(st.lists(st.sampled_from(["float64", "float32", "bfloat16", "float16"]), min_size=0, max_size=3)),
                 shape=draw(st.lists(st.integers(0, 4) if draw(st.integers(0, 9)) == 0 else st.integers(1, 4), min_size=0, max_size=4)),
                 prof=draw(st.sampled_from(["normal", "big", "small", "ints", "sparse"])), seed=draw(pb.seeds),
                 noncontig=draw(st.booleans()))
@@ -72,6 +74,15 @@ SUBNORMAL = {"float64": 2.0**-1074, "float32": 2.0**-149, "bfloat16": 2.0**-133,
 
 def run_prim(case) -> CaseResult:
     res = CaseResult()
+    for dt_name in case.get("before", []):
+        one = _run_prim_once(dict(case, dtype=dt_name, before=[]), CaseResult())
+        res.fails += [type(f)(f.bucket + ":earlier-call", f.msg) for f in one.fails]
+    if case.get("before"):
+        res.labels.append("after-other-dtypes")
+    return _run_prim_once(case, res)
+
+
+def _run_prim_once(case, res) -> CaseResult:
     a = case["factor"]
     dt = pb.DT[case["dtype"]]
     which = case["which"]
